@@ -1,10 +1,12 @@
 /-
-  C19 — shallow searches return the exact minimax value (first part: the capture search at the horizon).
+  C19 — shallow searches return the exact minimax value: the capture search at the horizon (T19.1), the main search at
+  nominal depths 1 and 2 with the table bypassed (T19.2), the iterations of the deepening loop (T19.3).
 
   Model: `quiescence` (`src/search.rs`), generic in the rules; `qVal` is the plain minimax value of the capture tree
   (stand-pat, made captures only, ply cap, half-move-100 cut-off) — no window, no move ordering, no environment.
 -/
 import Jence.Lemmas.QValue
+import Jence.Lemmas.IdVal
 namespace Jence.Props.C19
 open Jence
 
@@ -34,5 +36,85 @@ theorem qValue_order_free (R : Rules) (V : Game → Int) (g : Game) (l₁ l₂ :
 
 /-! Non-vacuity: the hypotheses are met at the root (ply 0) with the fuel the engine uses. -/
 example : (0 : Nat) ≤ Gen.MAX_PLY ∧ 0 + qFuel ≥ Gen.MAX_PLY + 1 := by decide
+
+/-! ### T19.2 - the main search at nominal depths 1 and 2
+
+  `nVal R H fuel g depth ply` (`Lemmas/NVal`) is the plain minimax value: 0 on a position of the game history `H`
+  (below the root), the static evaluation at the ply cap, the capture-tree value `qVal` at the horizon or when the
+  half-move clock is 100, otherwise the maximum of the negated child values over the moves `make` accepts, one ply deeper
+  when the side to move is in check; `-MATE_VALUE + ply` without a child in check, 0 without a child out of check. No
+  window, no move ordering, no environment. `Clean e` says that the run ended neither stopped (the iteration completed)
+  nor with an overflowed history array (finding D7: the Rust code panics there). -/
+
+/-- **T19.2** For every rules instance, position, nominal depth at most 2, window `alpha < beta`, game history `H`,
+    ply below the cap and environment (killers, history scores, PV, poll schedule), with the table bypassed: when the
+    search was neither stopped nor ran out of history slots, the value `negamax` returns is the minimax value when it lies
+    strictly inside the window, an upper bound of it when at most `alpha`, a lower bound when at least `beta`. PVS
+    null-window probes, re-searches, the beta cut-off, move ordering (T6.2) and the PV bookkeeping all drop out; late-move
+    reductions need depth >= 3 and the null move an extended depth >= 3 out of check, which cannot happen here. -/
+theorem negamax_shallow_is_sound_minimax (R : Rules) (cfg : Cfg) (hbyp : cfg.ttBypass = true) (H : List UInt64)
+    (fuel : Nat) (g : Game) (depth : Nat) (alpha beta : Int) (e : Env) (hd : depth ≤ 2) (hab : alpha < beta)
+    (hply : e.ply ≤ 63) (hfuel : e.ply + fuel ≥ Gen.MAX_PLY) (hH : e.rep.pre = H)
+    (hclean : Clean (negamax R cfg fuel g depth alpha beta e).2) :
+    Sound (negamax R cfg fuel g depth alpha beta e).1 (nVal R H fuel g depth e.ply) alpha beta :=
+  negamax_value R cfg hbyp H fuel g depth alpha beta e hd hab hply hfuel hH hclean
+
+/-- the reading used in the property: inside the window the score *is* the minimax value, outside it the value lies on
+    the reported side -/
+theorem negamax_shallow_agrees (R : Rules) (cfg : Cfg) (hbyp : cfg.ttBypass = true) (H : List UInt64)
+    (fuel : Nat) (g : Game) (depth : Nat) (alpha beta : Int) (e : Env) (hd : depth ≤ 2) (hab : alpha < beta)
+    (hply : e.ply ≤ 63) (hfuel : e.ply + fuel ≥ Gen.MAX_PLY) (hH : e.rep.pre = H)
+    (hclean : Clean (negamax R cfg fuel g depth alpha beta e).2) :
+    Agree (negamax R cfg fuel g depth alpha beta e).1 (nVal R H fuel g depth e.ply) alpha beta :=
+  (negamax_shallow_is_sound_minimax R cfg hbyp H fuel g depth alpha beta e hd hab hply hfuel hH hclean).agree hab
+
+/-- what the value is at a position without a legal move: mate by distance, stalemate zero -/
+theorem nVal_terminal (R : Rules) (H : List UInt64) (fuel : Nat) (g : Game) (depth ply : Nat)
+    (hrep : (decide (ply > 0) && H.contains g.key) = false) (hcap : ¬ ply ≥ Gen.MAX_PLY - 1)
+    (hq : (depth == 0 || g.halfMoves == 100) = false) (hnone : madeCount R g (R.generate g true) = 0) :
+    nVal R H (fuel + 1) g depth ply = if R.inCheck g then -Gen.MATE_VALUE + ply else 0 := by
+  unfold nVal
+  rw [if_neg (by rw [hrep]; simp), if_neg hcap, if_neg (by rw [hq]; simp)]
+  simp only
+  rw [(maxChild_none_iff R _ g (R.generate g true)).2 hnone]
+
+/-! ### T19.3 - the iterations of the deepening loop -/
+
+/-- **T19.3** Every iteration of nominal depth 1 or 2 that `search` runs (`idTrace`: depth, aspiration window, score,
+    in the order of the loop - the full window first, then +-50 around the previous score or the full window again after
+    a failed one) has `alpha < beta` and returns a sound answer for the minimax value of that depth at the root, whenever
+    the loop ended neither stopped nor overflowed: the score of an iteration inside its window is the exact minimax value,
+    the score of a failed one bounds it on the reported side. -/
+theorem iterations_are_sound_minimax (R : Rules) (cfg : Cfg) (hbyp : cfg.ttBypass = true) (g : Game) (H : List UInt64)
+    (count cur : Nat) (alpha beta score : Int) (e : Env) (hab : alpha < beta) (hp : e.ply = 0) (hH : e.rep.pre = H)
+    (hclean : Clean (idLoop R cfg g count cur alpha beta score e).2.2) :
+    ∀ it ∈ idTrace R cfg g count cur alpha beta e, it.depth ≤ 2 →
+      it.alpha < it.beta ∧ Sound it.score (nVal R H negaFuel g it.depth 0) it.alpha it.beta :=
+  idLoop_value R cfg hbyp g H count cur alpha beta score e hab hp hH hclean
+
+/-- the score `search` reports is the score of the last iteration of that list -/
+theorem reported_score_is_last_iteration (R : Rules) (cfg : Cfg) (g : Game) (count cur : Nat) (alpha beta score : Int) (e : Env) :
+    (idLoop R cfg g count cur alpha beta score e).1 =
+      ((idTrace R cfg g count cur alpha beta e).getLast?.map Iter.score).getD score :=
+  idLoop_score R cfg g count cur alpha beta score e
+
+/-- the start of `search`: ply 0, the full window, the history handed in -/
+example (tt : TT) (rep : RepTable) : (Env.fresh tt rep).ply = 0 ∧ (Env.fresh tt rep).rep.pre = rep.pre ∧
+    -Gen.INFINITY < Gen.INFINITY ∧ (0 : Nat) ≤ 63 ∧ 0 + negaFuel ≥ Gen.MAX_PLY := by
+  refine ⟨rfl, rfl, by decide, by decide, by decide⟩
+
+/-! Non-vacuity of `Clean`: a concrete run (toy rules: one move from the root, none after it) that ends neither stopped
+    nor overflowed - and returns the minimax value: the negated evaluation at depth 1, stalemate below the root at depth 2. -/
+def toyRules : Rules where
+  generate := fun _ b => if b then [Move.null] else []
+  make := fun g _ => if g.halfMoves == 0 then some { g with halfMoves := 1 } else none
+  inCheck := fun _ => false
+  evaluate := fun _ => 7
+  nullMove := id
+  firstLegal := fun _ => none
+def toyRun (depth : Nat) : Int × Env :=
+  negamax toyRules { ttBypass := true } negaFuel default depth (-Gen.INFINITY) Gen.INFINITY (Env.fresh (TT.new 1) RepTable.new)
+example : (toyRun 1).2.stopping = false ∧ (toyRun 1).2.rep.overflow = false ∧ (toyRun 1).1 = -7 := by decide +kernel
+example : (toyRun 2).2.stopping = false ∧ (toyRun 2).2.rep.overflow = false ∧ (toyRun 2).1 = 0 := by decide +kernel
 
 end Jence.Props.C19
